@@ -14,6 +14,7 @@ ID = "C15"
 LEVEL = "exploration"
 QUICK_SHARDS = 4
 MIN_NONTRIVIAL = 50
+FUZZ_RUNS = 160000     # thorough tier: atheris executions (all children)
 RULE = (
     "Recipes of all four classes; ids from all ranges (negative, large); "
     "all six descriptor classes, all parities incl. None; lone-pair "
@@ -109,5 +110,5 @@ def run(ctx):
         ctx.note(case, nt, labs)
         check_case(ctx, case)
 
-    ctx.hyp("c15", S.tapes(1500).map(gen), check, ctx.scale(8000, 300000),
+    ctx.hyp("c15", S.mapped(1500, gen), check, ctx.scale(8000, 300000),
             shrinker=shrink)
